@@ -61,7 +61,7 @@ static const std::vector<Kind>& kinds() {
         {"polygon", {{"nv", 4, "3,4,5,9 vertices (convex, parabola)"},
                      {"coords", 3, "db-grid; +0.3 db unit; +0.7 db unit shifted to -2.146e9 db units"},
                      {"rep", 6, "none; rect 2x2; regular 2x2; explicit(2); explicit_x(2); explicit_y(2)"},
-                     {"props", 4, "none; (1,'a'); (2,'ab'); (1,'abc')+(127,'abcd')"},
+                     {"props", 6, "none; (1,'a'); (2,'ab'); (1,'abc')+(127,'abcd'); raw bytes without NUL (6,'abc'); raw (7,'abcd')"},
                      {"tag", 3, "(0,0); (32767,32767); (5,7)"}}},
         {"bigpolygon", {{"nv", 4, "8189,8190,8191,8200 vertices on a circle"},
                         {"rep", 2, "none; rect 2x1"},
@@ -113,6 +113,9 @@ static void add_props(Property*& props, int which, int base) {
         case 1: set_gds_property(props, (uint16_t)base, "a"); break;
         case 2: set_gds_property(props, (uint16_t)(base + 1), "ab"); break;
         case 3: set_gds_property(props, (uint16_t)base, "abc"); set_gds_property(props, 127, "abcd"); break;
+        // GDSII properties whose value bytes carry no terminating NUL (as other producers of the list create them)
+        case 4: set_property(props, "S_GDS_PROPERTY", (const uint8_t*)"abc", 3, true); set_property(props, "S_GDS_PROPERTY", (uint64_t)6, false); break;
+        case 5: set_property(props, "S_GDS_PROPERTY", (const uint8_t*)"abcd", 4, true); set_property(props, "S_GDS_PROPERTY", (uint64_t)7, false); break;
     }
 }
 
